@@ -76,7 +76,7 @@ type c11BlockOpts struct {
 }
 
 func c11DefaultOpts() c11BlockOpts {
-	wide := 80
+	wide := 60
 	if v, err := strconv.Atoi(os.Getenv("VERIF_C11_WIDE_EVERY")); err == nil {
 		wide = v
 	}
@@ -127,6 +127,7 @@ var c11SizeClasses = []string{
 func c11GenBlock(t *rapid.T, label string, o c11BlockOpts) *c11Block {
 	seed := rapid.Uint64().Draw(t, label+".seed")
 	rng := rand.New(rand.NewPCG(seed, 0xC11B10B))
+	wideDraw := rng.Uint32()
 	fill := func(n int) []byte {
 		b := make([]byte, n)
 		for i := range b {
@@ -155,7 +156,9 @@ func c11GenBlock(t *rapid.T, label string, o c11BlockOpts) *c11Block {
 
 	blk := &c11Block{Seed: seed}
 	budget := o.MaxShares
-	wide := o.WideEvery > 0 && rapid.IntRange(1, o.WideEvery).Draw(t, label+".wide") == 1
+	// (decided by the case's PRNG, not by a rapid integer: rapid favours small values, which would
+	// make one block in ten wide instead of one in WideEvery)
+	wide := o.WideEvery > 0 && wideDraw%uint32(o.WideEvery) == 0
 	if wide {
 		// keep the ordinary blobs inside the first rows of the 128-wide square and below the filler
 		budget = 220
